@@ -705,6 +705,7 @@ struct ThreadsWorld : World
     int mix = p.cfg.size() > 2 ? (int)((uint64_t)p.cfg[2] % 3) : 0;
     uint64_t sseed = p.cfg.size() > 3 ? (uint64_t)p.cfg[3] : 1;
     SimSbx::cfg = SimSbx::Config();
+    SimSbx::forget_finder(); // (what an earlier run of this process captured is not part of this run)
     SimSbx::cfg.size = 4096;
     SimSbx::cfg.registry = true;
     SimSbx::cfg.slots = 4;
